@@ -70,11 +70,18 @@ def _L_job(job):
                 X, Z = spec.change_basis(X, Z, B)
             R, S = spec.to_symarrays(X, Z)
             s = spec.make_stabilizer(st, R, S, poison_phases=True)
+            stable = True
             try:
-                got = lc.determine_lc_class(s).id()
+                cobj = lc.determine_lc_class(s)
+                g1 = np.asarray(cobj.get_graph().adjacency_matrix).tolist()
+                got = cobj.id()
+                str(cobj)
+                cobj == cobj
+                stable = (np.asarray(cobj.get_graph().adjacency_matrix).tolist() == g1) and cobj.id() == got
             except (AssertionError, IndexError, KeyError, ValueError, TypeError) as e:
                 got = "exception %s" % type(e).__name__
             ctx.prove("class-id-invariant", 1 if got == cid else 0, info=dict(got=str(got)))
+            ctx.prove("id()/str()/== do not change the class object returned by the classifier (same representative graph before and after)", 1 if stable else 0, info=dict(got="%s (object changed by id())" % got))
             return {"id": str(got)}
         r = explore(fn)
         for v in r.violations:
